@@ -296,6 +296,31 @@ class Program:
                     node = nxt
                 if ok and node is not self.modules[modname].tree and isinstance(node, kinds):
                     return node
+        # the name may have been kept as an alias of a definition that moved:  `is_valid = _Validator.is_valid` at module level,
+        # or  `method = staticmethod(_helper)` / `method = _helper` in a class body
+        for i in range(len(parts) - 1, 0, -1):
+            modname = ".".join(parts[:i])
+            if modname not in self.modules:
+                continue
+            m = self.modules[modname]
+            holder: Any = m.tree
+            ok = True
+            for p in parts[i:-1]:
+                nxt = next((st for st in _body_defs(holder) if st.name == p), None)
+                if nxt is None:
+                    ok = False
+                    break
+                holder = nxt
+            if not ok:
+                continue
+            for st in getattr(holder, "body", []):
+                if isinstance(st, ast.Assign) and any(isinstance(t, ast.Name) and t.id == parts[-1] for t in st.targets):
+                    v = st.value
+                    if isinstance(v, ast.Call) and isinstance(v.func, ast.Name) and v.func.id in ("staticmethod", "classmethod") and len(v.args) == 1:
+                        v = v.args[0]
+                    r = self.resolve_expr(m, v) if isinstance(v, (ast.Name, ast.Attribute)) else None
+                    if isinstance(r, DefRef) and isinstance(r.node, kinds):
+                        return r.node
         if required:
             raise AnalysisError(f"anchor {qualname} not found")
         return None
